@@ -51,6 +51,7 @@ def showCallAt (c : Call) : String :=
 def showNotifAt (n : Notif) : String :=
   match n.pc with
   | .invoke => "notify.invoke"
+  | .entered => "handler.log"
   | .cas => "handler.cas"
   | .decode => "decode"
   | .fin => match n.nret with
